@@ -33,12 +33,15 @@ libccd: `for _ in range(max_iterations)`, one Minkowski support per iteration;
 MPR `_discover_portal`: v1, v2, then ≤ `max_iterations` loop bodies;
 MPR `_find_penetration_info`: bodies for `iterations = 0 … max_iterations + 1`;
 EPA: `for iteration in range(max_iter)`, one support on each collider per iteration;
-Nesterov: `while i < max_interations`, one support pair per iteration. -/
+Nesterov: `while i < max_interations`, one support pair per pass; `i` is incremented on every pass
+except the single pass on which the acceleration is switched off (`continue` without `i += 1`;
+both `continue` sites set `use_nesterov_acceleration = False`, so this happens at most once):
+at most `max_interations + 1` passes. -/
 def libccdEvals (cap : Nat) : Nat := 2 * cap
 def mprDiscoverEvals (cap : Nat) : Nat := 2 * (2 + cap)
 def mprPenetrationInfoEvals (cap : Nat) : Nat := 2 * (cap + 2)
 def epaEvals (cap : Nat) : Nat := 2 * cap
-def nesterovEvals (cap : Nat) : Nat := 2 * cap
+def nesterovEvals (cap : Nat) : Nat := 2 * (cap + 1)
 
 theorem libccd_support_evals_le :
     libccdEvals Gen.gjk__gjk_libccd__gjk_intersection_libccd__max_iterations ≤ 1000 := by decide
